@@ -30,7 +30,8 @@ RULE = ("(A) generated templates (single expression, several outputs, surroundin
         "not a literal) x {sync env render, async env render, async env render_async, sync env render_async}; "
         "(B) node-list templates with every arrangement of up to 4 nodes from {text, literal-looking text, constant, "
         "string constant, variable}; plus a fixed list of texts that are not literals for non-syntactic reasons "
-        "(unhashable key, deep nesting); every render that returned a mutable literal value is followed by an "
+        "(unhashable key, deep nesting); (P) a single value passed through a construct that prints nothing else (call block, "
+        "nested macros, set, with, loop, recursive loop, if, include, extends / super / self.block, autoescape, scoped block); every render that returned a mutable literal value is followed by an "
         "in-place change of that value and two more renders (same template; another template producing the same text) "
         "that must give a fresh, equal value. distinct = (template, values, entry point); non-trivial = more than one "
         "output node, or a single non-literal object.")
@@ -234,6 +235,19 @@ def xnodes():
             "bigint": ("10 ** 5000", 10 ** 5000), "inf": ("1e308 * 10", float("inf")), "range": ("range(3)", range(3))}
 
 
+# a single value x passed through a construct that does not print anything else: the template has the one
+# output node x (stream P: pieces predicted, [x]), so the value itself must come back (or the value of its text)
+PASS_THROUGH = [
+    "{% macro m() %}{{ caller() }}{% endmacro %}{% call m() %}{{ x }}{% endcall %}",
+    "{% macro m(v) %}{{ caller(v) }}{% endmacro %}{% call(w) m(x) %}{{ w }}{% endcall %}",
+    "{% macro m() %}{{ x }}{% endmacro %}{{ m() }}", "{% macro m(v) %}{{ v }}{% endmacro %}{{ m(x) }}",
+    "{% macro m() %}{% macro n() %}{{ x }}{% endmacro %}{{ n() }}{% endmacro %}{{ m() }}",
+    "{% set q = x %}{{ q }}", "{% with q = x %}{{ q }}{% endwith %}", "{% for i in [x] %}{{ i }}{% endfor %}",
+    "{% if true %}{{ x }}{% endif %}", "{{ x if true else 0 }}", "{% include 'inc' %}", "{% extends 'p' %}",
+    "{% extends 'p' %}{% block b %}{{ super() }}{% endblock %}", "{% if false %}{% block c %}{{ x }}{% endblock %}{% endif %}{{ self.c() }}",
+    "{% autoescape false %}{{ x }}{% endautoescape %}", "{% block d scoped %}{{ x }}{% endblock %}",
+    "{% for i in [1] recursive %}{{ x }}{% endfor %}",
+]
 NODES = ["T:abc", "T:1", "T:[", "T:]", "T:, ", "T: ", "C:1", "C:2.5", "C:[1, 2]", "C:none", "C:true", "S:a", "S:1", "S:", "V",
          "X:enum", "X:nt", "X:od", "X:sublist", "X:subdict", "X:frozen", "X:markuplist", "X:markuptuple", "X:sorted", "X:bigint",
          "X:inf", "X:range"]
@@ -324,6 +338,10 @@ def run(ctx):
         cases.append(("A-fixed", "{{ x }}", {"x": txt}, None))
         cases.append(("A-fixed", txt.replace("{", "{{ '{' }}") if "{" in txt else txt, {}, None))
         cases.append(("A-fixed", "{{ x }}{{ y }}", {"x": txt[:1], "y": txt[1:]}, None))
+    for _ in range(ctx.size(20, 200)):
+        for src in PASS_THROUGH:
+            v = ctx.rng.choice(VALUES)(ctx.rng)
+            cases.append(("P", src, {"x": v}, [v]))
     import itertools
     maxn = ctx.size(3, 4)
     for n in range(0, maxn + 1):
@@ -337,6 +355,7 @@ def run(ctx):
 
     # ---- observe pieces, build model lines
     jobs = []
+    axis_of = {}
     for label, src, vars_, predicted in cases:
         axis = ctx.rng.choice(AXES)
         if axis == "constructor" and (("'" in src and any(n in src for n in LOADER)) or "|as_" in src):
@@ -384,6 +403,7 @@ def run(ctx):
                 except Exception:  # noqa  (an integer beyond CPython's int-str limit cannot be joined: a raising render)
                     ctx.count("render_raises")
                     continue
+        axis_of[len(jobs)] = axis
         jobs.append((label, src, vars_, ts, ta, pieces, apieces))
     lines, meta = [], []
     for j, (label, src, vars_, ts, ta, pieces, apieces) in enumerate(jobs):
@@ -416,9 +436,16 @@ def run(ctx):
                        "native: a template without output returns None instead of the empty text")
         if not agrees(es, got):
             kind = got[1] if got[0] == "exc" else "wrong value"
-            ctx.model_mismatch("K native_render", case, show(em), show(got),
-                               f"documented result {show(es)}, engine gives {show(got)}",
-                               f"native {case['entry']} ({'async' if is_async else 'sync'} env): {kind}")
+            sig = f"native {case['entry']} ({'async' if is_async else 'sync'} env): {kind}"
+            if label == "P":
+                sig = f"native: a single value through construct #{PASS_THROUGH.index(src)} does not come back"
+                # constructs whose result the shared runtime wraps in Markup under autoescaping: macros and call
+                # blocks (0-4), super() / self.block() (12, 13), recursive loops (16); the Markup text is then a
+                # string node and may be read back as a literal
+                if axis_of[j] == "autoescape" and PASS_THROUGH.index(src) in (0, 1, 2, 3, 4, 12, 13, 16):
+                    sig = "native autoescape: a value passed through a macro, call block or recursive loop comes back as Markup text"
+            ctx.model_mismatch("K native_render", dict(case, axis=axis_of[j]), show(em), show(got),
+                               f"documented result {show(es)}, engine gives {show(got)}", sig)
         elif not agrees(em, got) or not agrees(eg, got):
             ctx.model_mismatch("K native_render", case, show(em), show(got), None)
         else:
